@@ -19,3 +19,14 @@ var Lexicon = []string{"a", "b1", "_x", "$left", "and", "or", "in", "by", "let",
 	"18446744073709551614", "18446744073709551617", "18446744073709551618", "18446744073709551619", "18446744073709551625", "184467440737095516150", "9223372036854775809",
 	// numbers that stop inside their exponent, signs glued together
 	"1e+", "2.5E-", "--", "- -", "+-", "1--1", "a--b"}
+
+// LowByteLookalikes are characters whose code point, cut down to one byte, is an
+// ASCII character that matters to the lexer (a quote, a backslash, a semicolon,
+// a bracket, an escape letter, white space): U+0100+b and U+4E00+b for each.
+var LowByteLookalikes = func() []string {
+	var out []string
+	for _, b := range []byte("'\"`\\;()[]|,.=!<>+-*/% \t\n\rntxe0$_") {
+		out = append(out, string(rune(0x100+int(b))), string(rune(0x4E00+int(b))), string(rune(0x1F300+int(b))))
+	}
+	return out
+}()
